@@ -167,6 +167,12 @@ pub struct Delivered {
     /// (read_to_string on non-UTF-8 data): nothing can be said about its content
     #[serde(default)]
     pub opaque_read: bool,
+    /// the same head through the other public views: `m=<Display of the method>`, `v=<Display of
+    /// the version>`, `h=<Display of header k>` (one per header, in order), `d=<Debug of the
+    /// request>`, `e=<header k's name is equiv() to its own upper- and lower-case spelling and to
+    /// nothing else>`
+    #[serde(default)]
+    pub views: Vec<String>,
 }
 
 #[derive(Clone, Debug, Default)]
@@ -497,6 +503,26 @@ pub fn comp_heads(case: &ConvCase, obs: &Observation, nonce: &str) -> Comp {
             }
             if &h.value != v {
                 return err("head/header-value", format!("header {} ({}): sent {:?} delivered {:?}", k, h.name, h.value, v));
+            }
+        }
+        // the other public views of the same head agree with it
+        if !d.views.is_empty() {
+            let mut want = vec![format!("m={}", rq.method), format!("v={}.{}", d.version.0, d.version.1)];
+            for h in &rq.headers {
+                // (the name in the spelling that was delivered; equality of names is case-insensitive)
+                want.push(format!("h={}: {}", h.name, h.value));
+            }
+            let got: Vec<&String> = d.views.iter().filter(|v| !v.starts_with("d=") && !v.starts_with("e=")).collect();
+            if got.len() != want.len() || got.iter().zip(want.iter()).any(|(g, w)| if g.starts_with("h=") { !g.eq_ignore_ascii_case(w) || g.split_once(": ").map(|x| x.1) != w.split_once(": ").map(|x| x.1) } else { *g != w }) {
+                return err("head/display-views", format!("Display of method / version / headers gives {:?}, expected {:?}", got, want));
+            }
+            if let Some(dbg) = d.views.iter().find(|v| v.starts_with("d=")) {
+                if !dbg.contains(&rq.method) || !dbg.contains(&target) {
+                    return err("head/debug-view", format!("{:?} does not name method {:?} and target {:?}", dbg, rq.method, target));
+                }
+            }
+            if let Some(e) = d.views.iter().find(|v| v.starts_with("e=") && v.as_str() != "e=ok") {
+                return err("head/name-comparison", format!("header-name comparison is not exactly case-insensitive equality: {}", e));
             }
         }
         match case.transport {
